@@ -6,6 +6,7 @@ Extraction Language OCaml.
 Extraction "codec_model.ml"
   encode enc_len decode decode_wire wf_value schema_wf all_schemas n_models critical
   b_read_name w_read_name name_from_bytes comp_from_bytes parse_nat decode_alloc kcoef smax encode_wire wire_plan inc_of all_inc flat_fields
+  read_packet_b read_packet_w read_data_b read_data_w read_interest_b read_interest_w ix_of_list spec2022_ix
   br_readbyte br_readn br_readbuf br_readwire br_skip br_range br_delegate br_pos br_len br_of
   pr_pos pr_len pr_readbyte pr_readn pr_readbuf pr_readwire pr_skip pr_range pr_delegate
   N.add N.mul N.of_nat N.to_nat N.eqb N.ltb N.div N.modulo Z.of_N Z.to_N Z.of_nat Z.to_nat Z.add Z.opp Z.ltb.
